@@ -238,8 +238,12 @@ func applyCorruption(c *Case, k corruption, r *Rand) *Case {
 		if L := refLen(); L > 0 {
 			return L
 		}
-		if recs, _ := parseFasta(c.Files["msa"]); len(recs) > 0 { // (generated references have no gaps)
-			return len(strings.Join(recs[0].seq, ""))
+		if recs, _ := parseFasta(c.Files["msa"]); len(recs) > 0 { // the reference's own length: its row without the gap columns
+			row := strings.Join(recs[0].seq, "")
+			if c.Opts.RefID != "" {
+				return len(row) - strings.Count(row, "-")
+			}
+			return len(row)
 		}
 		return 0
 	}
@@ -341,6 +345,10 @@ func applyCorruption(c *Case, k corruption, r *Rand) *Case {
 					return nil
 				}
 				recs[0].seq[last] = recs[0].seq[last][:len(recs[0].seq[last])-1]
+			} else if r.P(0.3) && len(recs[0].seq[last]) > 1 {
+				// the right bases, written as an alignment row: a gap symbol inside (the CIGARs index into it all the same)
+				at := r.Range(1, len(recs[0].seq[last])-1)
+				recs[0].seq[last] = recs[0].seq[last][:at] + "-" + recs[0].seq[last][at:]
 			} else {
 				recs[0].seq[last] += "A"
 			}
